@@ -461,6 +461,28 @@ def judge(line, impl, model):
     if impl.startswith("FAULT"):
         out.append(("violation", "implementation did not survive the case: " + impl))
         return out
+    if is_builder and impl.startswith("OK"):
+        # documented effects of the builder calls, independent of the model: add_column returns CARQUET_OK and appends a column;
+        # add_group under the root (parent -1 or 0) returns the index of the new element; the root counts its children
+        n_el, n_col, want_rets = 1, 0, []
+        for op in lst(toks[1]):
+            f_ = op.split(":")
+            if f_[0] == "c":
+                want_rets.append("0"); n_el += 1; n_col += 1
+            elif f_[3] in ("-1", "0"):
+                want_rets.append(str(n_el)); n_el += 1
+            else:
+                want_rets.append(None)          # other parents: not specified
+        a0 = kv(impl.rpartition(" RT=")[0] if " RT=" in impl else impl)
+        got_rets = lst(a0.get("rets"))
+        if len(got_rets) != len(want_rets) or any(w is not None and g != w for g, w in zip(got_rets, want_rets)):
+            bad_i = next((i for i, (g, w) in enumerate(zip(got_rets, want_rets)) if w is not None and g != w), len(got_rets))
+            out.append(("violation", "builder call #%d returned %s, documented result %s" % (bad_i, got_rets[bad_i:bad_i + 1], want_rets[bad_i:bad_i + 1])))
+        elif None not in want_rets:
+            if a0.get("n") != str(n_el) or a0.get("k") != str(n_col):
+                out.append(("violation", "after %d add_column and %d add_group calls the schema has %s elements / %s columns" % (n_col, n_el - 1 - n_col, a0.get("n"), a0.get("k"))))
+            if a0.get("rootnc") != str(n_el - 1):
+                out.append(("violation", "the root element counts %s children, %d elements were added under it" % (a0.get("rootnc"), n_el - 1)))
     if is_builder and " RT=" in impl:
         impl, _, rt = impl.rpartition(" RT=")
         if rt != "same":
@@ -550,7 +572,11 @@ def run_cases(rep, drv, run, lines, what, dist):
         dist[what] = dist.get(what, 0) + 1
         if a == "FAULT died":
             continue   # already reported through p1 for the first case of the shard
-        for kind, text in judge(li, a, b):
+        try:
+            verdicts = judge(li, a, b)
+        except Exception as ex:      # unparsable output of a changed tree is a violation with this case as replay, never a crash
+            verdicts = [("violation", "the driver's answer cannot be interpreted (%s: %s): %s" % (type(ex).__name__, ex, a[:300]))]
+        for kind, text in verdicts:
             nv += 1
             if kind == "violation":
                 rep.violation(what + ": " + text, {"case": li, "impl": a[:2000], "model": b[:2000]})
@@ -600,7 +626,11 @@ def run(tier):
                           "finish within 20 s (rc=%s %s)" % (nel, rc, " ".join((out[0] if out else err[-300:]).split())), {"case": li})
         else:
             mo, _, _ = vlib.run_lines(run_, [li], timeout=300)
-            for kind, text in judge(li, out[0], mo[0] if mo else "RUNNER-ERROR none"):
+            try:
+                hv = judge(li, out[0], mo[0] if mo else "RUNNER-ERROR none")
+            except Exception as ex:
+                hv = [("violation", "the driver's answer cannot be interpreted (%s): %s" % (ex, out[0][:300]))]
+            for kind, text in hv:
                 (rep.violation if kind == "violation" else rep.tie_broken)("hostile: " + text, {"case": li} if kind == "violation" else li[:2000])
     run_cases(rep, drv, run_, gen_exhaustive(maxn, rng), "exhaustive", dist)
     run_cases(rep, drv, run_, gen_random(tier, rng), "random", dist)
@@ -642,7 +672,10 @@ def replay(path):
         print(err[-2000:])
     if rc != 0 or not out:
         return 1
-    res = judge(case, out[0], mo[0] if mo else "RUNNER-ERROR none")
+    try:
+        res = judge(case, out[0], mo[0] if mo else "RUNNER-ERROR none")
+    except Exception as ex:
+        res = [("violation", "the driver's answer cannot be interpreted (%s: %s)" % (type(ex).__name__, ex))]
     for kind, text in res:
         print(kind.upper() + ":", text)
     return 1 if res else 0
